@@ -80,7 +80,8 @@ def rule_text(rules, depth=0):
 RULEBOOKS = [
     dict(name="default", vendor="huawei",
          rules=[R("a"), R("b *"), R("c ~"), R("blk *", R("x"), R("y *"), R("z ~"))],
-         rows={(): ["a", "b 1", "c 1 2", "blk 1", "unk 9"], ("blk",): ["x", "y 1", "z 1 2", "unk"]}),
+         # "a"/"a x" and "y 1"/"y 1 k" share one (rule, key) pair
+         rows={(): ["a", "a x", "c 1 2", "blk 1", "unk 9"], ("blk",): ["x", "y 1", "y 1 k", "unk"]}),
     dict(name="ordered-children", vendor="cisco",
          rules=[R("acl *", R("rule ~", ordered=True), R("desc ~")), R("top ~", ordered=True)],
          rows={(): ["acl 1", "acl 2", "top 1", "top 2", "top 3"], ("acl",): ["rule a", "rule b", "rule c", "desc x"]}),
@@ -329,9 +330,8 @@ def formatter(vendor):
     return _fmt[vendor]
 
 
-def check_renderings(stripped, out):
-    """stripped: real diff (with match dicts) without unchanged items"""
-    want = entries(simple(stripped))
+def check_renderings(stripped, want, out):
+    """stripped: real diff (with match dicts) as handed to the renderers; want: the entries it has to show"""
     for vendor in VENDORS:
         try:
             lines = formatter(vendor).diff(stripped)
@@ -372,7 +372,7 @@ def check_pair(rbname, old, new):
             out.append(("self-diff-not-empty", [], ss))
         if MOVED in set(_ops(sd)):
             out.append(("self-diff-moved", "no moved item", sd))
-    check_renderings(stripped, out)
+    check_renderings(stripped, entries(ref_strip(sd)), out)
     return out, ss
 
 
@@ -386,7 +386,7 @@ def _synthetic_diff(shape, ops):
             i = counter[0]
             counter[0] += 1
             row = "r%d v%d" % (j, i)
-            match = {"raw_rule": "r%d ~" % j, "key": ("v%d" % i,),
+            match = {"raw_rule": "r%d ~" % (j % 2), "key": ("k%d" % (i % 2),),      # several rows per (rule, key)
                      "attrs": {"multiline": False, "context": {}, "comment": [], "logic": None}}
             res.append((ops[i], row, walk(ch), match))
         return res
@@ -396,7 +396,7 @@ def _synthetic_diff(shape, ops):
 def check_synthetic(shape, ops):
     out = []
     d = _synthetic_diff(shape, ops)
-    check_renderings(d, out)
+    check_renderings(d, entries(simple(d)), out)
     return out, simple(d)
 
 
